@@ -18,9 +18,11 @@ RULE = ('(i) systematic preemption injection (sys.monitoring, context bound 2): 
 ASSUMPTIONS = ['context bound 2 with B run to completion; schedules with three or more interleaved calls or a partial B are only reached by the real-thread run',
                'CPython with the GIL: a preemption can only happen between bytecodes, which the LINE / INSTRUCTION events enumerate']
 
+PROBES = ('c2l_deep', 'c2l_low', 'c2l_res0', 'c2b_seg', 'l2c_mid_alt', 'l2c_pole_alt')
 GEO = ['l2c_mid', 'l2c_pole', 'l2c_anti_hi', 'c2l_deep', 'c2b_auto_low', 'c2b_seg']
 OTHER = ['c2l_low', 'compact', 'uncompact', 'children', 'parent', 'hex', 'meta', 'res0', 'l2c_mid_alt', 'l2c_pole_alt', 'l2c_anti_alt',
-         'hex_b', 'parent_b', 'children_b']
+         'hex_b', 'parent_b', 'children_b', 'c2b_res1', 'c2b_res0', 'c2l_res0', 'l2c_exact_pole', 'l2c_seam_meridian', 'l2c_face_centre',
+         'l2c_edge_mid']
 
 
 def catalogue(a5, seed):
@@ -67,7 +69,21 @@ def catalogue(a5, seed):
         'children_b': ('cell_to_children', [c3, 5]),
         'meta': ('meta', [c9]),
         'res0': ('get_res0_cells', []),
+        'c2b_res1': ('cell_to_boundary', [c1, {'segments': 4}]),
+        'c2b_res0': ('cell_to_boundary', [a5.cell_to_parent(c1), {'segments': 3, 'closed_ring': False}]),
+        'c2l_res0': ('cell_to_lonlat', [a5.cell_to_parent(c1)]),
+        # inputs exactly on special sets: a pole, a triangle seam meridian (lon = -93 + 36k), a face centre, an edge midpoint
+        'l2c_exact_pole': ('lonlat_to_cell', [[rnd.uniform(-180, 180), rnd.choice((90.0, -90.0))], rnd.randint(5, 25)]),
+        'l2c_seam_meridian': ('lonlat_to_cell', [[-93.0 + 36 * rnd.randrange(10), rnd.uniform(60, 89.9)], rnd.randint(5, 25)]),
+        'l2c_face_centre': ('lonlat_to_cell', [list(_frame_ll(rnd, 'centre')), rnd.randint(5, 25)]),
+        'l2c_edge_mid': ('lonlat_to_cell', [list(_frame_ll(rnd, 'mid')), rnd.randint(5, 25)]),
     }
+
+
+def _frame_ll(rnd, kind):
+    from rv import gen, geo
+    pts = [f for k, f in gen.FRAME if k == kind]
+    return geo.vec_to_ll(pts[rnd.randrange(len(pts))])
 
 
 def make_call(a5, spec):
@@ -98,13 +114,16 @@ def plan(tier, seed):
         specs.append({'part': 'inject', 'pairs': other_pairs[i::nso], 'cap': 40 if tier == 'quick' else 0, 'mode': 'line'})
     nsi = 3 if tier == 'quick' else 12
     ipairs = [(a, b) for a in GEO for b in ('l2c_mid', 'c2b_seg', 'c2l_deep')]
+    ipairs += [(a, b) for a in ('l2c_mid', 'l2c_pole') for b in ('l2c_exact_pole', 'l2c_seam_meridian', 'l2c_face_centre')]
     for i in range(nsi):
         specs.append({'part': 'inject', 'pairs': ipairs[i::nsi], 'cap': 250 if tier == 'quick' else 0, 'mode': 'instruction'})
     for i, nt in enumerate((8, 16, 8) if tier == 'quick' else (8, 16, 8, 16, 4, 32)):
         specs.append({'part': 'threads', 'threads': nt, 'seconds': 15 if tier == 'quick' else 100})
-    nsc = 6 if tier == 'quick' else 18
+    nsc = 8 if tier == 'quick' else 24
     cpairs = [(a, b) for a in GEO for b in ('l2c_mid', 'c2b_seg', 'c2l_deep')]
-    cpairs += [('l2c_mid', 'l2c_mid_alt'), ('l2c_pole', 'l2c_pole_alt'), ('l2c_anti_hi', 'l2c_anti_alt'), ('res0', 'res0'), ('meta', 'children')]
+    cpairs += [('l2c_mid', 'l2c_mid_alt'), ('l2c_pole', 'l2c_pole_alt'), ('l2c_anti_hi', 'l2c_anti_alt'), ('res0', 'res0'), ('meta', 'children'),
+               ('c2b_res1', 'c2l_low'), ('c2b_res0', 'c2l_res0'), ('c2l_low', 'c2b_res1')]
+    cpairs += [(a, b) for a in ('l2c_mid', 'l2c_pole', 'c2b_seg') for b in ('l2c_exact_pole', 'l2c_seam_meridian', 'l2c_face_centre', 'l2c_edge_mid')]
     for i in range(nsc):
         specs.append({'part': 'inject_cold', 'pairs': cpairs[i::nsc], 'cap': 60 if tier == 'quick' else 600})
     hp = [(a, b) for a in ('l2c_mid', 'l2c_pole', 'c2l_deep', 'c2b_seg', 'c2b_auto_low', 'compact') for b in ('l2c_mid_alt', 'c2l_deep', 'c2b_seg', 'res0')]
@@ -185,14 +204,19 @@ def run_shard(spec, ctx):
             cold = inj.trace_of(A)
             only = [i + 1 for i, loc in enumerate(cold) if loc not in warm]
             ctx.maxi('cold_only_events_%s' % an, len(only))
+            if ctx.tier == 'quick' and len(only) > 250:
+                st_ = len(only) / 250.0
+                o_ = ctx.rnd.random() * st_
+                only = [only[min(len(only) - 1, int(o_ + i * st_))] for i in range(250)]
             step = max(1, len(cold) // spec['cap'])
             ks = sorted(set(only) | set(range(1 + int(ctx.rnd.random() * step), len(cold) + 1, step)))
             for k in ks:
                 rew.rewind()
                 if inject_pair(a5, sched, inj, cat, an, bn, 'line', k, ctx, base, cold=True):
                     ctx.count('injections_fired_cold')
-                # the caches that this schedule filled must serve later calls correctly too
-                for n2 in (an, bn):
+                # the caches that this schedule filled must serve later calls correctly too - the two racing calls and calls
+                # that land in other triangles / faces / resolutions
+                for n2 in (an, bn) + (PROBES if k % 4 == 0 else PROBES[:3]):
                     r2 = sched.canon(make_call(a5, cat[n2])())
                     if r2 != base[n2]:
                         ctx.fail('wrong_result_after_cold_schedule', {'A': an, 'B': bn, 'A_call': cat[an], 'B_call': cat[bn], 'mode': 'line',
@@ -249,15 +273,27 @@ def run_shard(spec, ctx):
         fillers = [(lambda c=c: a5.cell_to_lonlat(c)) for c in fill_cells]
         rew.rewind()
         hist = {}
+        watched = []
         for i in range(min(spec['fill'], len(fillers))):
             fillers[i]()
-            if i % 100 == 99:
-                for path, o in state.containers():
-                    if isinstance(o, dict) and not path.endswith('.__dict__'):
-                        hist.setdefault(id(o), [path, o, []])[2].append(len(o))
+            if i == 200:
+                watched = [(p_, o_) for p_, o_ in state.containers() if isinstance(o_, dict) and not p_.endswith('.__dict__') and len(o_) >= 8]
+                for p_, o_ in watched:
+                    hist[id(o_)] = [p_, o_, [], len(o_), 0]
+            elif i > 200:
+                for p_, o_ in watched:
+                    h_ = hist[id(o_)]
+                    n_ = len(o_)
+                    if n_ < h_[3]:
+                        h_[4] = max(h_[4], h_[3])   # the container shrank: it held h_[3] entries just before (cleared / trimmed when full)
+                    h_[3] = n_
+                    if i % 100 == 99:
+                        h_[2].append(n_)
         bounded = []
-        for path, o, lens in hist.values():
-            if len(lens) >= 20 and lens[-1] >= 8 and lens[-1] == lens[-10] and lens[-1] > lens[0]:
+        for path, o, lens, last, before_drop in hist.values():
+            if before_drop:
+                bounded.append((path, o, before_drop))
+            elif len(lens) >= 20 and lens[-1] == lens[-10] and lens[-1] > lens[0]:
                 bounded.append((path, o, lens[-1]))
         ctx.counters['pressure_fill_calls'] = min(spec['fill'], len(fillers))
         ctx.counters['containers_watched_under_pressure'] = len(hist)
@@ -309,7 +345,7 @@ def run_shard(spec, ctx):
         extra = []
         for i in range(40):
             p = (ctx.rnd.uniform(-180, 180), ctx.rnd.uniform(-89.9, 89.9))
-            r = ctx.rnd.randint(2, 29)
+            r = ctx.rnd.randint(2, 29) if i % 8 else ctx.rnd.randint(0, 1)
             c = a5.lonlat_to_cell(p, r)
             extra.append(('lonlat_to_cell', [list(p), r]))
             extra.append(('cell_to_lonlat', [c]) if i % 2 else ('cell_to_boundary', [c, {'segments': 2}]))
@@ -319,6 +355,9 @@ def run_shard(spec, ctx):
                 extra.append(('cell_to_parent', [c, max(-1, r - 3)]))
                 extra.append(('cell_to_children', [c, min(29, r + 2)]))
                 extra.append(('get_resolution', [c]))
+        for nm in ('l2c_exact_pole', 'l2c_seam_meridian', 'l2c_face_centre', 'l2c_edge_mid'):
+            for rr in (6, 14, 23):
+                extra.append(('lonlat_to_cell', [cat[nm][1][0], rr]))
         ops += [make_call(a5, s) for s in extra]
         expected = [sched.canon(f()) for f in ops]
         res = sched.thread_stress(ops, expected, spec['threads'], spec['seconds'], '%s/%s' % (spec['seed'], spec['shard']))
